@@ -192,6 +192,12 @@ def lambdaHead : List Bytes → List Tok
   | [p] => [.sym p]
   | p :: ps => .sym p :: .p 44 :: lambdaHead ps
 
+/-- fixes/C20-unparse-pipeline-rhs.patch: a pipeline on the right of `|` is parenthesised -/
+def pipedParen (f : SE) (ft : List Tok) : List Tok :=
+  match f with
+  | .call _ _ true => [Tok.p 40] ++ ft ++ [Tok.p 41]
+  | _ => ft
+
 mutual
 /-- `unparseExpression(e, top)` -/
 def SE.toks : SE → Bool → UR
@@ -213,11 +219,7 @@ def SE.toks : SE → Bool → UR
     | .cons a0 rest =>
       (a0.toks true).bind fun lhs =>
         (match rest with
-         | .nil => (f.toks true).bind fun ft =>
-             -- fixes/C20-unparse-pipeline-rhs.patch
-             .ok (match f with
-                  | .call _ _ true => [Tok.p 40] ++ ft ++ [Tok.p 41]
-                  | _ => ft)
+         | .nil => (f.toks true).bind fun ft => .ok (pipedParen f ft)
          | _ => (f.toks false).bind fun ft => (rest.toks).bind fun ats => .ok (ft ++ ats)).bind fun rhs =>
         .ok (if top then lhs ++ [Tok.p 124] ++ rhs else [Tok.p 40] ++ lhs ++ [Tok.p 124] ++ rhs ++ [Tok.p 41])
 /-- the arguments of a call, each printed with `top = false` -/
@@ -411,33 +413,38 @@ def parseSymbols : Nat → List PTok → PR (List Bytes × Nat × List PTok)
     | ⟨.sym s, b, _⟩ :: rest => .ok ([s], b, rest)
     | _ => .err
 
-/-- `query_expression` (the query and its span) -/
+mutual
+/-- `query_tag`, or a bracketed `query` -/
+def parseQFirst : Nat → List PTok → PR ((Q × Nat × Nat) × List PTok)
+  | 0, _ => .fuel
+  | fuel + 1, ts =>
+    match ts with
+    | ⟨.p 91, _, _⟩ :: rest =>
+      (parseQE fuel rest).bind fun (q, r) =>
+        match r with
+        | ⟨.p 93, _, _⟩ :: r' => .ok (q, r')
+        | _ => .err
+    | ⟨.tagKey k, b, _⟩ :: ⟨.p 61, _, _⟩ :: ⟨v, _, e⟩ :: rest =>
+      match tagValue? v with
+      | some v => .ok ((.tagged k v, b, e), rest)
+      | none => .err
+    | ⟨.sym k, b, _⟩ :: ⟨.p 61, _, _⟩ :: ⟨v, _, e⟩ :: rest =>
+      match tagValue? v with
+      | some v => .ok ((.tagged k v, b, e), rest)
+      | none => .err
+    | ⟨.tagKey k, b, e⟩ :: rest => .ok ((.keyed k, b, e), rest)
+    | ⟨.sym k, b, e⟩ :: rest => .ok ((.keyed k, b, e), rest)
+    | _ => .err
+/-- `query_expression` (the query and its span): `&` and `|` nest to the right, without precedence -/
 def parseQE : Nat → List PTok → PR ((Q × Nat × Nat) × List PTok)
   | 0, _ => .fuel
   | fuel + 1, ts =>
-    let first : PR ((Q × Nat × Nat) × List PTok) :=
-      match ts with
-      | ⟨.p 91, _, _⟩ :: rest =>
-        (parseQE fuel rest).bind fun (q, r) =>
-          match r with
-          | ⟨.p 93, _, _⟩ :: r' => .ok (q, r')
-          | _ => .err
-      | ⟨.tagKey k, b, _⟩ :: ⟨.p 61, _, _⟩ :: ⟨v, _, e⟩ :: rest =>
-        match tagValue? v with
-        | some v => .ok ((.tagged k v, b, e), rest)
-        | none => .err
-      | ⟨.sym k, b, _⟩ :: ⟨.p 61, _, _⟩ :: ⟨v, _, e⟩ :: rest =>
-        match tagValue? v with
-        | some v => .ok ((.tagged k v, b, e), rest)
-        | none => .err
-      | ⟨.tagKey k, b, e⟩ :: rest => .ok ((.keyed k, b, e), rest)
-      | ⟨.sym k, b, e⟩ :: rest => .ok ((.keyed k, b, e), rest)
-      | _ => .err
-    first.bind fun ((q, b, e), r) =>
+    (parseQFirst fuel ts).bind fun ((q, b, e), r) =>
       match r with
       | ⟨.p 38, _, _⟩ :: r' => (parseQE fuel r').bind fun ((q2, _, e2), r'') => .ok ((mkQ 38 q q2, b, e2), r'')
       | ⟨.p 124, _, _⟩ :: r' => (parseQE fuel r').bind fun ((q2, _, e2), r'') => .ok ((mkQ 124 q q2, b, e2), r'')
       | _ => .ok ((q, b, e), r)
+end
 
 mutual
 /-- `pipeline` -/
@@ -539,6 +546,22 @@ def parseTop (fuel : Nat) (ts : List PTok) : PR PE :=
     match r with
     | [] => .ok e
     | _ => .err
+
+/-! ## span nesting (executable) -/
+
+mutual
+/-- every node's span is non-negative and contains the spans of its children -/
+def PE.nested : PE → Bool
+  | .mk k b e => decide (b ≤ e) && k.nestedIn b e
+def PK.nestedIn : PK → Nat → Nat → Bool
+  | .sym _, _, _ => true
+  | .lit _, _, _ => true
+  | .call f args _, b, e => decide (b ≤ f.b) && decide (f.e ≤ e) && f.nested && args.nestedIn b e
+  | .lambda _ body, b, e => decide (b ≤ body.b) && decide (body.e ≤ e) && body.nested
+def PEL.nestedIn : PEL → Nat → Nat → Bool
+  | .nil, _, _ => true
+  | .cons x xs, b, e => decide (b ≤ x.b) && decide (x.e ≤ e) && x.nested && xs.nestedIn b e
+end
 
 /-! ## the parse-normal form of an expression, and the printable subset (executable) -/
 
